@@ -114,6 +114,9 @@ func installBlHooks() {
 	}
 }
 
+// the file behind the most recently created file-backed backlog (a run may close it under the backlog, as an owner could)
+var lastBlFile *os.File
+
 func newBlRig(tr *tracer.T, backend string, size int, dir string, actors int) (*blRig, func(), error) {
 	var bl *backlog.Backlog
 	cleanup := func() {}
@@ -125,6 +128,7 @@ func newBlRig(tr *tracer.T, backend string, size int, dir string, actors int) (*
 		name := f.Name()
 		cleanup = func() { os.Remove(name) }
 		bl = backlog.NewFileBacklog(size, f)
+		lastBlFile = f
 	} else {
 		bl = backlog.NewSize(size)
 	}
@@ -405,6 +409,9 @@ type blFreeIn struct {
 	Trace   string `json:"trace"`
 	Dir     string `json:"dir"`
 	HangMs  int    `json:"hang_ms"`
+	// every CloseFaultEvery-th run (file back end) the file is closed under the backlog right before Close: releasing the
+	// store then fails, and Close must still wake every waiting reader
+	CloseFaultEvery int `json:"close_fault_every"`
 }
 
 func blFree(in []byte) (interface{}, error) {
@@ -463,6 +470,25 @@ func blFree(in []byte) (interface{}, error) {
 				}
 			}
 			time.Sleep(time.Duration(r.Intn(500)) * time.Microsecond)
+			if cfg.Backend == "file" && cfg.CloseFaultEvery > 0 && run%cfg.CloseFaultEvery == 0 && lastBlFile != nil {
+				// only when every reader is parked at the head (nobody is inside a file read): then the only thing the closed
+				// file affects is the release of the store inside Close
+				for try := 0; try < 200; try++ {
+					parked := 0
+					rig.mu.Lock()
+					for ri := 1; ri <= cfg.Readers; ri++ {
+						if rig.lastE[ri] == "rpark" {
+							parked++
+						}
+					}
+					rig.mu.Unlock()
+					if parked == cfg.Readers {
+						lastBlFile.Close()
+						break
+					}
+					time.Sleep(time.Millisecond)
+				}
+			}
 			tr.Emit(tracer.Ev{"e": "CloseCall"})
 			bl.Close()
 		}()
